@@ -109,3 +109,11 @@ def h(x):
                  "result[2].ssrc == x.ssrc", "result[2].sender_info == x.sender_info",
                  "forall(lambda j: result[2].reports[j] == x.reports[j], 0, len(x.reports))"],
         tags=["C07"])
+
+# ---------------------------------------------------------------------------- compound RTCP: the dispatch layer (C05)
+contract(f"{M}:RtcpPacket.parse", params={"data": "bytes"}, returns="list[any]",
+         raises={"ValueError": None},
+         ensures=["len(result) >= 0"],
+         locals={"packets": "list[any]"},
+         loops={0: dict(kind="while", invariant=["0 <= pos <= len(data)"], decreases="len(data) - pos")},
+         tags=["C05"], witness=[{"data": bytes.fromhex("81c90007" "00000007") + bytes(range(24))}])
